@@ -137,6 +137,65 @@ def demote_patterns():
     return sorted(out)
 
 
+def _text_pool(t):
+    """values whose DECIMAL TEXT is a hazard for whoever prints them as C literals: one digit and an exponent (1e+10), whole
+    numbers without a decimal point of every magnitude (incl. beyond 2^24 / 2^32 / 2^53 and not representable in the narrower
+    float type), powers of ten and their neighbours, values needing every significant digit"""
+    s = set()
+    if t in (F32, F64):
+        conv = _f32 if t == F32 else _f64
+        kmax, kmin = (38, -45) if t == F32 else (308, -323)
+        for k in range(kmin, kmax + 1):
+            for d in (1, 2, 5, 9):
+                try:
+                    v = conv(float('%de%d' % (d, k)))
+                except OverflowError:
+                    continue
+                s.add(v)
+                if k % 7 == 0:
+                    s.add(v + 1)
+                    s.add(v - 1 if v else v)
+        for k in range(1, 64 if t == F64 else 40):
+            for dlt in (-1, 0, 1):
+                x = float((1 << k) + dlt)
+                try:
+                    s.add(conv(x))
+                    s.add(conv(-x))
+                except OverflowError:
+                    pass
+        for x in (1e10 + 1, 1e15 + 1, 1e16 + 2, 123456789012.0, 9007199254740991.0, 4294967297.0, 1099511627777.0, 999999999.0, 99999999.0,
+                  16777217.0, 33554433.0, 1e17, 1e16, 12345678.0, 7.0, 1000000.0):
+            s.add(conv(x))
+            s.add(conv(-x))
+    else:
+        bits = BITS[t]
+        M = (1 << bits) - 1
+        for k in range(0, 20):
+            for d in (1, 9):
+                for sg in (1, -1):
+                    s.add((sg * d * 10 ** k) & M)
+        for nbytes in range(1, 11):
+            # boundaries of the signed LEB128 length classes: +-2^(7n-1) and neighbours
+            for dlt in (-1, 0, 1):
+                s.add(((1 << (7 * nbytes - 1)) + dlt) & M)
+                s.add((-(1 << (7 * nbytes - 1)) + dlt) & M)
+    return sorted(s)
+
+
+TEXT_POOL = None
+
+
+def draw_const(ch, t):
+    """immediate of a t.const: like draw_value, but a third of the time from the decimal-text / encoding-length hazard pool"""
+    global TEXT_POOL
+    if TEXT_POOL is None:
+        TEXT_POOL = {tt: _text_pool(tt) for tt in (I32, I64, F32, F64)}
+    if ch.below(3) == 0:
+        p = TEXT_POOL[t]
+        return p[ch.below(len(p))]
+    return draw_value(ch, t)
+
+
 def draw_value(ch, t):
     """value (bit pattern) of type t: pool member, few-bits pattern, small number or uniform random bits"""
     k = ch.below(10)
